@@ -383,7 +383,10 @@ TEXT = {
           "counterexamples [null], [call,null], [null,call] by evaluation, id kinds as hasValidID has them; tied by one rpc-req "
           "line per well-formed directed request and transport (the model recomputes the shape of the real answer with the "
           "registry reflected from the served services) and by AST facts of readBatch / parseMessage / handleBatch / the "
-          "classification predicates / the dispatch switches / the error codes pinned by theorems.",
+          "classification predicates / the dispatch switches / the error codes pinned by theorems; the subscription service "
+          "(rpc/api/subscribe) runs on a producing mock chain with subscribers of every kind, and every notification is compared "
+          "with the ledger (momentums in order, the blocks of each momentum, per address, the sends - user and contract - entering "
+          "each mailbox), momentum by momentum and after bursts.",
   "design_ref": "§3 C18",
   "note": "Of the JSON-RPC server the dispatch from a syntactically valid JSON value to the shape of the answer is proved and "
           "compared; what a registered method returns once entered (result / typed-argument error / method error = class app), "
@@ -408,7 +411,9 @@ TEXT = {
   "note": "Data-race freedom and reader atomicity are runtime properties (not theorems); readers are interposed at the "
           "listener boundaries of momentum insert/delete. The pool state machine is a "
           "hand-written model; the two pure decision functions are tied by differential streams. Confinement of the "
-          "subscription table of rpc/api/subscribe to its worker goroutine is a regenerated call-graph fact (AST), not a race-detector run.",
+          "subscription table of rpc/api/subscribe to its worker goroutine is a regenerated call-graph fact (AST), not a race-detector run; "
+          "that every value sent on its channels is freshly allocated by the sender is a regenerated fact too, and the subscribe stream "
+          "compares every event delivered after a burst of momentums (inserted while a subscriber does not read) with the ledger.",
   "technique": "Lean 4 proof (induction/omega) + regenerated constants + differential correspondence + node-level monitors",
  },
  "C11": {
